@@ -424,6 +424,28 @@ pub fn run(name: &str) -> Option<bool> {
             let p = build_options(&o);
             crate::outcome::run(&p, &bytes(&["-a", "x"])).is_value()
         }
+        // C14: completing the attached value of the argument an adjacent group starts with
+        // (`-v=<TAB>`) offers unrelated names instead of the value placeholder
+        "completion_value_of_adjacent_group_first_argument" => {
+            let group = Spec::Adj(vec![
+                arg(1, Names::short('v'), Ty::U32),
+                arg(2, Names::long("xray"), Ty::I64),
+            ]);
+            let o = OptSpec::plain(Spec::Seq(vec![
+                Spec::wrap(W::Fallback, 4, arg(3, Names::long("juliet"), Ty::I64)),
+                group,
+            ]));
+            let p = build_options(&o);
+            let (out, _, _) = run_full(
+                &p,
+                &bytes(&["-v="]),
+                &RunOpts {
+                    comp: Some(0),
+                    ..RunOpts::default()
+                },
+            );
+            matches!(out, Outcome::Completion(t) if t.contains("--juliet"))
+        }
         _ => return None,
     })
 }
